@@ -205,10 +205,25 @@ FilesViolCrash(r, c) ==
            bound == IF all = {} THEN -1 ELSE CHOOSE f \in all : \A g \in all : f <= g
            fs == r.st.files
            w == r.st.w[1]
+           \* the implementation's own attribution (snapshot hook) of some retained record is older than the
+           \* file the record was written into
+           misattributed ==
+              \E i \in 1..Len(r.st.snap) :
+                 LET e == r.st.snap[i] IN
+                   e.q \in QIds(c) /\ x[e.q].a /\
+                   \E j \in 1..Len(e.recs) :
+                      /\ e.recs[j][3] # -1
+                      /\ \E k \in 1..Len(x[e.q].recs) :
+                            RPos(x[e.q].recs[k]) = e.recs[j][1] /\ e.recs[j][3] < fileOf(e.q, x[e.q].recs[k])
        IN  (IF Len(fs) = 0 \/ fs[Len(fs)] # w \/ \E i \in 1..(Len(fs) - 1) : fs[i + 1] # fs[i] + 1
             THEN {"after recovery: WAL files are not a contiguous run ending at the writer's file"} ELSE {})
       \cup (IF Len(fs) > 0 /\ bound # -1 /\ fs[1] < bound
-            THEN {"after recovery: a WAL file older than every retained record and than the file recovery resumed in survives"} ELSE {})
+            THEN \* finding D7: the image's oldest file begins with continuation frames whose head was in an
+                 \* already unlinked file, and the replay attributes the record that follows them to that file
+                 IF ("orph" \in DOMAIN r) /\ r.orph = 1 /\ misattributed
+                 THEN {"after recovery of an image whose oldest file begins with orphaned continuation frames: the record that follows them is attributed to that file, which is therefore not reclaimed"}
+                 ELSE {"after recovery: a WAL file older than every retained record and than the file recovery resumed in survives"}
+            ELSE {})
       \cup (IF r.st.disk # Len(fs) * FileSize THEN {"after recovery: disk_used_bytes differs from the files' total size"} ELSE {})
 
 (* --- crash monitors (C02, C03, C12, C04) --- *)
